@@ -115,6 +115,8 @@ def run_tokens(X, src, wall=3.0):
 def safe_tokens(X, src, wall=2.0):
     """token list of the unmodified tokenizer, or None when it fails or does not finish (never hangs the caller)"""
     k, toks = run_tokens(X, src, wall)
+    if k == "HANG":     # a loaded machine is not a hang: confirm with a much larger limit
+        k, toks = run_tokens(X, src, wall * 10)
     return toks if k == "ok" else None
 
 
